@@ -455,7 +455,10 @@ func judgeInbound(sc C02Script) (key, msg string) {
 		if !b.bound || len(want) != 40 || want != strings.ToLower(want) {
 			return "C02/generator-ski", fmt.Sprintf("the generated certificate's SKI %q is not 40 lower-case hex digits equal to SHA-1 of its public key", want)
 		}
-		if r.Frames == 0 {
+		// "pass" = the identity checks let the peer through: SHIP bytes came back, or the hub made callbacks
+		// naming that SKI (under load the very first SHIP message can reach the hub before its connection
+		// object runs and the handshake then fails - DESIGN.md section 8; that is no refusal of the certificate)
+		if r.Frames == 0 && len(r.NewSkis) == 0 {
 			return "C02/generated-certificate-refused", "a certificate from the library's own generator was not accepted: " + desc
 		}
 	}
